@@ -354,6 +354,40 @@ mutual
     | _, _ => .error .badValue
 end
 
+/-! ### recursive Go types, as depth-bounded unfoldings
+
+`Ty` has no recursion construct. A self-referential Go type is represented by its unfolding to a
+nesting depth `d`; a value nested no deeper than `d` levels (in particular anything that fits into
+`d` input bytes: every level costs at least one byte) is coded by the Go type exactly as by the
+unfolding. The driver is told `d` by the harness (`Tree<d>`), always larger than the input. -/
+
+/-- `type Tree struct { V uint64; Kids []Tree }` -/
+def treeTy : Nat → Ty
+  | 0 => .struct [(.none, .uint 64), (.none, .slice (.struct []))]
+  | d + 1 => .struct [(.none, .uint 64), (.none, .slice (treeTy d))]
+
+/-- `type TreeT struct { V uint64; Kids []TreeT "tail" }` -/
+def treeTTy : Nat → Ty
+  | 0 => .struct [(.none, .uint 64), (.tail, .slice (.struct []))]
+  | d + 1 => .struct [(.none, .uint 64), (.tail, .slice (treeTTy d))]
+
+/-- `type TreeP struct { V uint64; Kids []*TreeP }` -/
+def treePTy : Nat → Ty
+  | 0 => .struct [(.none, .uint 64), (.none, .slice (.ptr (.struct [])))]
+  | d + 1 => .struct [(.none, .uint 64), (.none, .slice (.ptr (treePTy d)))]
+
+/-- `type Link struct { V uint64; Next *Link "nil" }` -/
+def linkTy : Nat → Ty
+  | 0 => .struct [(.none, .uint 64), (.nilOK, .ptr (.struct []))]
+  | d + 1 => .struct [(.none, .uint 64), (.nilOK, .ptr (linkTy d))]
+
+/-- `type MA struct { V uint64; B []MB }` with `type MB struct { S []byte; A []MA }` (mutual) -/
+def maTy : Nat → Ty
+  | 0 => .struct [(.none, .uint 64), (.none, .slice (.struct []))]
+  | d + 1 => .struct [(.none, .uint 64), (.none, .slice (.struct [(.none, .bytes), (.none, .slice (maTy d))]))]
+
+def mbTy (d : Nat) : Ty := .struct [(.none, .bytes), (.none, .slice (maTy d))]
+
 mutual
   /-- weight of a type expression for the fuel: recursion depth per input byte.  `interface{}` is
       heavier because every nesting level of the *data* costs three calls. -/
